@@ -320,6 +320,177 @@ def _partition_parser(ck, R1, pq):
     return ("::", ":", "#")
 
 
+# ---- the cluster prefix is put in front of a name at most once ----------------------------------------------
+def _concats(fa, nodes):
+    """[(parts, cfg node, ast node)]: the string-building expressions among the flow nodes (maximal '+' chains,
+    f-strings, format calls, sep.join([...]) of a literal list), plus `name += <string>` statements seen as
+    name + <string>."""
+    out = []
+    seen = set()
+    for (n, at) in nodes:
+        if id(n) in seen:
+            continue
+        seen.add(id(n))
+        if isinstance(n, ast.BinOp) and isinstance(n.op, ast.Add):
+            par = fa.pm.get(n)
+            if isinstance(par, ast.BinOp) and isinstance(par.op, ast.Add):
+                continue
+            out.append((_flat_parts(n), at, n))
+        elif isinstance(n, ast.JoinedStr) or (isinstance(n, ast.Call) and A.call_attr(n) == "format"):
+            p = A.str_parts(n)
+            if p:
+                out.append((p, at, n))
+        elif isinstance(n, ast.Call) and A.call_attr(n) == "join" and isinstance(n.func, ast.Attribute) and A.const_str(n.func.value) is not None \
+                and len(n.args) == 1 and isinstance(n.args[0], (ast.List, ast.Tuple)):
+            p = []
+            for i, e in enumerate(n.args[0].elts):
+                if i:
+                    p.append(("lit", A.const_str(n.func.value)))
+                p += _flat_parts(e)
+            out.append((A._merge(p), at, n))
+    for st in fa.stmts(ast.AugAssign):
+        if isinstance(st.op, ast.Add) and isinstance(st.target, ast.Name) and fa.nodes(st) and any(n is st.value for (n, _a) in nodes):
+            prev = ast.copy_location(ast.Name(id=st.target.id, ctx=ast.Load()), st.target)
+            out.append((A._merge([("expr", prev)] + _flat_parts(st.value)), fa.nodes(st)[0], st))
+    return out
+
+
+def _cases_ending_with(fa, e, at, sep, lits=(), depth=0):
+    """[(literals, cfg node)]: the cases in which the string `e` ENDS with `sep` (a prefix prepared in a local,
+    possibly only under a condition)."""
+    from .fresh import guarded_cases
+    out = []
+    for (case, a_, l_) in guarded_cases(fa, e, at, lits):
+        if case[0] != "expr":
+            continue
+        x = case[1]
+        p = _flat_parts(x)
+        if not p:
+            continue
+        k, last = p[-1]
+        if k == "lit":
+            if last.endswith(sep):
+                out.append((tuple(l_), a_))
+        elif isinstance(last, ast.Name) and last is not x and fa.df.is_local(last.id) and depth < 6:
+            out += _cases_ending_with(fa, last, a_, sep, l_, depth + 1)
+    return out
+
+
+def _expr_guards(fa, node, at):
+    """Literals that hold whenever the sub-expression `node` of its statement is evaluated: the tests of the
+    conditional expressions it is an arm of, the earlier operands of an `and` / `or` it belongs to."""
+    out = []
+    x = node
+    while x is not None and not isinstance(x, ast.stmt):
+        par = fa.pm.get(x)
+        if isinstance(par, ast.IfExp) and x is not par.test:
+            out += fa._atoms(par.test, at, x is par.body)
+        if isinstance(par, ast.BoolOp) and x in par.values:
+            for v in par.values[:par.values.index(x)]:
+                out += fa._atoms(v, at, isinstance(par.op, ast.And))
+        x = par
+    return out
+
+
+_PRESENT = ("__D__ in __X__", "__X__.find(__D__) >= 0", "0 <= __X__.find(__D__)", "__X__.find(__D__) > -1", "-1 < __X__.find(__D__)",
+            "__X__.count(__D__) > 0", "0 < __X__.count(__D__)", "__X__.count(__D__) >= 1", "1 <= __X__.count(__D__)", "__X__.count(__D__)")
+_ABSENT = ("__X__.find(__D__) == -1", "__X__.find(__D__) < 0", "0 > __X__.find(__D__)", "__X__.count(__D__) == 0", "__X__.count(__D__) < 1",
+           "1 > __X__.count(__D__)")
+
+
+def _absence_literals(fa, x, at, sep):
+    """The path literals that say `sep` does not occur in the string `x` (as FA.conditions spells them)."""
+    out = set()
+
+    def build(src):
+        t = ast.parse(src, mode="eval").body
+
+        class T(ast.NodeTransformer):
+            def visit_Name(self, n):
+                if n.id == "__X__":
+                    return x
+                if n.id == "__D__":
+                    return ast.Constant(value=sep)
+                return n
+        return ast.fix_missing_locations(T().visit(t))
+
+    for (srcs, present) in ((_PRESENT, True), (_ABSENT, False)):
+        for src in srcs:
+            t = build(src)
+            for (txt, pol) in fa._atoms(t, at, True):
+                out.add((txt, (not pol) if present else pol))
+    return out
+
+
+def check_single_cluster_prefix(ck, R2, ini, d_cluster, d_module):
+    """The name a reference is stored under has ONE cluster prefix: where `<cluster> '::'` is put in front of a name
+    that may already carry a prefix (the unversioned name of the function that was found, which lives in whatever
+    cluster it is registered in now), this happens only where that name is known to contain no cluster delimiter.
+    Otherwise a callee that was re-clustered yields 'old::new::module:function', which does not parse back into
+    the parts that were stored."""
+    from .fresh import alternatives as alts_of
+    sites = []
+    for (st_, v_, _aug) in attr_writes(ini, "self._qualified_name"):
+        if not ini.nodes(st_):
+            continue
+        fl = flow_nodes(ini, v_, ini.nodes(st_)[0])
+        for (parts, at, node) in _concats(ini, fl):
+            for i in range(len(parts) - 1):
+                k, left = parts[i]
+                if k == "lit":
+                    cases = [((), at)] if left.endswith(d_cluster) else []
+                else:
+                    cases = _cases_ending_with(ini, left, at, d_cluster)
+                if cases and not any(s_[2] is node and s_[1] == i for s_ in sites):
+                    sites.append((parts, i, node, at, cases))
+    ck.need(sites, "FunctionReference.__init__: cannot find where the cluster prefix is put in front of the qualified name")
+
+    def composed_here(parts):
+        """module ':' function glued on the spot: no cluster delimiter in it for admissible names"""
+        return not any(k == "lit" and d_cluster in v for k, v in parts) and any(k == "lit" and d_module in v for k, v in parts) \
+            and len([1 for k, v in parts if k == "expr"]) >= 2
+
+    for (parts, i, node, at, cases) in sites:
+        rest = parts[i + 1:]
+        k0, x = rest[0]
+        if k0 == "lit":
+            continue
+        if len(rest) > 1:
+            if composed_here(rest):
+                continue
+            raise AnalysisError("%s: cannot tell what `%s` puts the cluster prefix in front of" % (ini.qual, A.short(node, 60)))
+        carriers = [alt for (alt, a2) in alts_of(ini, x, at) if not composed_here(_flat_parts(alt))]
+        if not carriers:
+            continue
+        absent = _absence_literals(ini, x, at, d_cluster)
+        here = set(_expr_guards(ini, node, at)) if isinstance(node, ast.expr) else set()
+        conds = ini.conditions(at)
+        if conds is None:
+            raise AnalysisError("%s: too many paths to `%s`" % (ini.qual, A.short(node, 60)))
+        ok = bool(here & absent) or (bool(conds) and all(c & absent for c in conds))
+        if not ok:
+            # the prefix itself may have been prepared only where the name has no delimiter yet
+            ok = True
+            for (lits, a_) in cases:
+                if set(lits) & absent:
+                    continue
+                cd = ini.conditions(a_) if a_ != at else conds
+                if cd and all(c & absent for c in cd):
+                    continue
+                ok = False
+        if not ok:
+            seen_lits = {l_[0] for c in conds for l_ in c} | {l_[0] for l_ in here} | {l_[0] for (lits, a_) in cases for l_ in lits}
+            xt = ini.xnorm(x, at)
+            if any(xt in t_ and any(m_ in t_ for m_ in (".split(", ".rsplit(", ".partition(", ".rpartition(", "re.", ".index(")) for t_ in seen_lits):
+                raise AnalysisError("%s: cannot tell whether the test guarding `%s` establishes that the name has no %r" % (ini.qual, A.short(node, 60), d_cluster))
+        ck.ob(R2, ini.key(node, "single-cluster-prefix"), ok,
+              "the cluster prefix is put in front only of a name without %r" % d_cluster if ok else
+              "`%s` puts a cluster prefix in front of `%s`, which may already carry one (it can be `%s`), and nothing on the way establishes that "
+              "it contains no %r: for a function that is now registered in another named cluster the stored name becomes "
+              "'old%snew%smodule%sfunction', which does not split back into the parts that were stored"
+              % (A.short(node, 60), A.short(x, 30), A.short(carriers[0], 50), d_cluster, d_cluster, d_cluster, d_module), ini.where(node))
+
+
 def check_cluster_name_validated(ck, R2, shape):
     """The cluster name is spliced in front of `module:function#version` with the cluster delimiter; the parser can
     only get it back if it contains none of the characters that delimit the later parts.  The configuration
@@ -365,6 +536,52 @@ def check_stub_from_stored_state(ck, R3):
                   "positional call no longer fits it and decoding the memento raises instead of yielding an external reference" % (k.arg, live), fq.where(call))
     ck.ob(R3, fq.key(None, "stub-sites"), len(stubs) >= 1, "%d external stub construction site(s)" % len(stubs) if stubs else
           "from_qualified_name no longer falls back to UnboundExternalMementoFunction", fq.where())
+
+
+def check_unresolvable_is_absent(ck, R3):
+    """get_mementos answers None for a stored memento whose function cannot be mapped any more: on every call
+    chain from get_mementos to the read of the stored document (the private reader, or the decoder itself where
+    the reader was inlined) — through whatever helpers of the class the loop body was moved into — some frame
+    holds the call inside a `try` whose handlers take FunctionNotFoundError."""
+    gm = FA(ck, "storage_base.DataSourceMetadataSource.get_mementos")
+    cls = gm.fi.cls
+    ck.need(cls is not None, "get_mementos is not a method")
+    reader_names = ("_read_memento",) if "_read_memento" in cls.methods else ("decode_memento",)
+    catching = {"FunctionNotFoundError", "ValueError", "Exception", "BaseException"}
+    fnf = ck.repo.classes_named("FunctionNotFoundError")
+    if fnf:
+        catching = {"FunctionNotFoundError", "Exception", "BaseException"} | {b.name for b in ck.repo.mro(fnf[0])[1:]} | set(fnf[0].base_exprs)
+
+    def absorbed(fa, call):
+        n = call
+        while n is not None:
+            p_ = fa.pm.get(n)
+            if isinstance(p_, ast.Try) and any(fa.inside(call, b) for b in p_.body):
+                for h in p_.handlers:
+                    ts = [None] if h.type is None else (h.type.elts if isinstance(h.type, ast.Tuple) else [h.type])
+                    if any(t is None or A.norm(t).split(".")[-1] in catching for t in ts):
+                        # (a handler that passes the exception on does not absorb it)
+                        return not any(isinstance(st, ast.Raise) for st in h.body)
+            n = p_
+        return False
+
+    reads = []  # (fa, call, protected?)
+
+    def walk(fa, covered, stack):
+        for c in fa.calls():
+            nm = A.call_attr(c)
+            prot = covered or absorbed(fa, c)
+            if nm in reader_names:
+                reads.append((fa, c, prot))
+            elif isinstance(c.func, ast.Attribute) and A.norm(c.func.value) in ("self", "cls", cls.node.name) and nm in cls.methods \
+                    and nm not in stack and len(stack) < 5:
+                walk(FA(ck, cls.methods[nm]), prot, stack + (nm,))
+
+    walk(gm, False, ("get_mementos",))
+    ck.need(reads, "%s: no call chain from get_mementos to %s found" % (gm.qual, " / ".join(reader_names)))
+    for (fa, c, prot) in reads:
+        ck.ob(R3, fa.key(c, "unresolvable-is-absent"), prot, "a memento whose function cannot be mapped counts as absent" if prot else
+              "FunctionNotFoundError escapes get_mementos: a stale entry makes every lookup of that call raise", fa.where(c))
 
 
 def _pattern_literal(pq, e, depth=0):
@@ -437,6 +654,9 @@ def check(ck):
         for (st_, v_, _aug) in qn:
             if ini.nodes(st_):
                 concat |= {x[7:-1] for x in ini.deps(v_, ini.nodes(st_)[0]) if x.startswith("const:'") and len(x[7:-1]) <= 2}
+                # (delimiters spelled inside a format string / f-string / sep.join in that flow)
+                for (parts_, _at, _n) in _concats(ini, flow_nodes(ini, v_, ini.nodes(st_)[0])):
+                    concat |= {t_ for k_, t_ in parts_ if k_ == "lit" and 0 < len(t_) <= 2}
         if not qn:
             concat = _glue_literals(ini)
         ok = {d_cluster, d_module, d_version} <= concat
@@ -492,6 +712,7 @@ def check(ck):
             ok4 = ok4 and bool(f_) and not l_
         ck.ob(R2, ini.key(None, "without-cluster"), ok4, "the cluster prefix is cut at the first %r" % d_cluster if ok4 else
               "qualified_name_without_cluster is not cut at the first %r" % d_cluster, ini.where())
+        ck.run(check_single_cluster_prefix, ck, R2, ini, d_cluster, d_module)
         # the cluster delimiter is looked for in the name BEFORE the version is appended: the
         # version is unrestricted and may itself contain the delimiter
         probes = []
@@ -774,21 +995,7 @@ def check(ck):
     ck.ob(R3, da.key(None, "function-argument-decoding"), okd, "a function-valued argument is refused only when no function object (not even a stub) exists" if okd else
           "decode_arg refuses function references under another condition than `memento_fn is None`", da.where())
     # (c) metadata source treats unresolvable functions as absent; memory backend likewise
-    gm = FA(ck, "storage_base.DataSourceMetadataSource.get_mementos")
-    # (the read of the stored memento: the private reader, or the decoder itself where the reader was inlined)
-    rm = gm.one(gm.calls("_read_memento") or gm.calls("decode_memento"), "_read_memento call")
-    hs = []
-    n = rm
-    while n is not None:
-        p = gm.pm.get(n)
-        if isinstance(p, ast.Try) and any(gm.inside(rm, b) for b in p.body):
-            for h in p.handlers:
-                if h.type is not None:
-                    hs += [A.norm(t) for t in (h.type.elts if isinstance(h.type, ast.Tuple) else [h.type])]
-        n = p
-    okh = "FunctionNotFoundError" in hs
-    ck.ob(R3, gm.key(rm, "unresolvable-is-absent"), okh, "a memento whose function cannot be mapped counts as absent" if okh else
-          "FunctionNotFoundError escapes get_mementos: a stale entry makes every lookup of that call raise", gm.where(rm))
+    ck.run(check_unresolvable_is_absent, ck, R3)
     fw = FA(ck, "reference.FunctionReferenceWithArguments.__init__")
     rz = [r for r in fw.stmts(ast.Raise) if isinstance(r.exc, ast.Call)]
     okz = bool(rz) and all(A.call_attr(r.exc) == "FunctionNotFoundError" for r in rz)
